@@ -27,7 +27,7 @@ Proof.
 Qed.
 
 Lemma mark_leader k x : leader_of (t_pc (mark k x)) = leader_of (t_pc x) /\ k_key (t_op (mark k x)) = k_key (t_op x).
-Proof. unfold mark. destruct (Nat.eqb _ k); [|auto]. destruct (t_pc x); auto. Qed.
+Proof. unfold mark. destruct (Nat.eqb _ k); [|auto]. destruct (t_pc x) eqn:E; simpl; rewrite ?E; auto. Qed.
 
 Ltac upd_cases u t := destruct (Nat.eq_dec u t) as [->|?]; [rewrite ?upd_same | rewrite ?upd_other by assumption].
 
